@@ -81,6 +81,7 @@ type ev struct {
 	localMacros map[string]*macroDef
 	fromMacros  map[string]*macroDef
 	depth       int
+	outside     bool // executing control flow at the top level of an extending template
 }
 
 // Eval runs the reference evaluator on a program.
@@ -202,7 +203,9 @@ func (e *ev) runTpl(t *Tpl) {
 		case "if", "for", "do":
 			// executed for their assignments and callbacks; what they would
 			// print is not rendered
+			e.outside = true
 			e.capture(func() { e.node(n) })
+			e.outside = false
 		}
 	}
 	prev := e.name
@@ -412,6 +415,12 @@ func (e *ev) node(n *N) {
 		}
 		e.out.write(ToStr(v))
 	case "block":
+		if e.outside {
+			// under control flow at the top level of an extending template a
+			// block is defined, not rendered
+			e.sh.feature("block-under-toplevel-control-flow")
+			return
+		}
 		b, pos := e.resolve(n.S)
 		if b == nil {
 			fail("block not found: " + n.S)
@@ -630,6 +639,9 @@ func (e *ev) callMacro(m *macroDef, args []Val) Val {
 		e.scopes = e.scopes[:len(e.scopes)-1]
 		e.name = prevName
 	}()
+	outside := e.outside
+	e.outside = false
+	defer func() { e.outside = outside }()
 	s := e.capture(func() { e.run(m.n.Body) })
 	return Str(s)
 }
